@@ -430,9 +430,11 @@ class W1World(World):
                 s.update(new=new)
         elif op == 'import_text':
             kind = wchoice(rng, {'good': 10, 'no_node_id': 1.5, 'malformed': 1, 'mixed_graph_ids': 1,
-                                 'empty_graph': 1, 'no_graph_id': 1})
+                                 'empty_graph': 1, 'no_graph_id': 1, 'enumerated': 1.5})
             entry = rng.choice(ENTRIES)
             fmt = rng.choice(FMTS)
+            if kind == 'enumerated':
+                entry, fmt = rng.choice(['from_string', 'from_file']), 'GRAPHML'
             if rng.random() < 0.5:
                 # import into one of the client's own ids (possibly re-import / delete-then-reimport)
                 tgt = rng.choice(self.client_graphs[client])
@@ -441,6 +443,15 @@ class W1World(World):
                 tgt = 'G-%s-x%d' % (s['actor'], self.extra)
                 self.client_graphs[client].append(tgt)
             desc = self.gen_desc(rng, kind, tgt)
+            if kind == 'enumerated':
+                # some nodes come without (or with an empty) NodeID: enumerate_graph_nodes* must number them
+                for i, (_, p) in enumerate(desc['nodes']):
+                    r = rng.random()
+                    if r < 0.4:
+                        p.pop(NODE_ID, None)
+                    elif r < 0.5:
+                        p[NODE_ID] = ''
+                s['variant'] = rng.choice(['to_string', 'to_file'])
             direct = entry.endswith('direct')
             if direct:
                 for i, (_, p) in enumerate(desc['nodes']):
@@ -1028,6 +1039,10 @@ class W1World(World):
         direct = entry.endswith('direct')
         if kind == 'malformed':
             text = self.build_text(desc, fmt)[: max(5, len(self.build_text(desc, fmt)) // 2)] + '<<<'
+        elif kind == 'enumerated':
+            text, desc = self.enumerate_nodes(s, desc)
+            if text is None:
+                return {g}, 'enumerate_failed'
         else:
             text = self.build_text(desc, fmt)
         if not direct and 'disjoint_existing_id' in self.avoid and g in self.disjoint_nonempty():
@@ -1048,6 +1063,49 @@ class W1World(World):
         self._cur_target = 'existing' if self.model.gnodes(g) else 'fresh'
         o = self.three_way(s, lambda b: self.import_call(b, entry, text, g), model, True)
         return {g}, o
+
+    def enumerate_nodes(self, s, desc):
+        """ABCGraphImporter.enumerate_graph_nodes / _to_string on a text whose nodes partly lack NodeID (C01)"""
+        from fim.graph.abc_property_graph import ABCGraphImporter
+        from . import roundtrip as RT
+        src = self.write_file(self.build_text(desc, 'GRAPHML'))
+        try:
+            if s.get('variant') == 'to_file':
+                dst = src + '.enum'
+                ABCGraphImporter.enumerate_graph_nodes(graph_file=src, new_graph_file=dst)
+                with io.open(dst, encoding='utf-8') as f:
+                    text = f.read()
+            else:
+                text = ABCGraphImporter.enumerate_graph_nodes_to_string(graph_file=src)
+            nodes, edges, markup = RT.parse_graphml(text)
+        except Exception as e:
+            self.flag('C01', 'rt_enumerate', {'symptom': 'raised', 'exc': type(e).__name__},
+                      'numbering the nodes of a GraphML text raised %s: %s' % (type(e).__name__, str(e)[:200]))
+            return None, desc
+        if s.get('variant') == 'to_file' and markup:
+            self.flag('C01', 'rt_label_markup', {'via': 'enumerate_graph_nodes'}, '; '.join(markup[:2]))
+        new_desc = {'nodes': [], 'edges': desc['edges']}
+        seen = set()
+        for key, p in desc['nodes']:
+            got = nodes.get(key)
+            if got is None:
+                self.flag('C01', 'rt_enumerate', {'symptom': 'node_lost'}, 'node %s is missing after numbering' % key)
+                return None, desc
+            want = dict(p)
+            nid = got.get(NODE_ID)
+            if p.get(NODE_ID):
+                ok = canon(got) == canon(want)
+            else:
+                want[NODE_ID] = nid
+                ok = isinstance(nid, str) and len(nid) > 0 and canon(got) == canon(want)
+            if not ok or nid in seen:
+                self.flag('C01', 'rt_enumerate', {'symptom': 'content' if ok else 'properties'},
+                          'numbering changed node %s: had %s, now %s' % (key, canon(p)[:200], canon(got)[:200]))
+                return None, desc
+            seen.add(nid)
+            new_desc['nodes'].append([key, want])
+        self.stats.inc('probe.enumerate.%s' % s.get('variant'))
+        return text, new_desc
 
     # ---- C01 round trip
     def do_roundtrip(self, s):
